@@ -218,6 +218,31 @@ fn with_headers(s: &RespSpec) -> Option<HttpResponseHeaders<HttpResponseOk<RespB
     Some(r)
 }
 
+/// a value whose JSON serialisation fails after part of it has been written (map keys that are not strings)
+#[derive(Serialize, schemars::JsonSchema)]
+struct FailsHalfway {
+    name: String,
+    cells: std::collections::BTreeMap<(u32, u32), String>,
+}
+
+/// An unrelated response, built on this thread just before the one under test, that cannot be
+/// serialised: it has to be refused (an error, never a success), and it must not leave anything
+/// behind that shows up in the next response.
+fn unserialisable_response_first(s: &RespSpec) -> Result<(), Failure> {
+    let v = FailsHalfway { name: s.typed.text.clone(), cells: [((1, 2), "x".to_string())].into_iter().collect() };
+    match catch_quiet(|| HttpResponseOk(v).to_result()) {
+        Ok(Ok(resp)) => {
+            ensure!(resp.status().as_u16() >= 500, "unserialisable-value-sent", "a value that cannot be serialised as JSON produced a {} response", resp.status());
+            Ok(())
+        }
+        Ok(Err(e)) => {
+            ensure!(e.status_code.as_u16() >= 500, "unserialisable-value-status", "a value that cannot be serialised produced error status {}", e.status_code.as_u16());
+            Ok(())
+        }
+        Err(p) => fail!("panic:unserialisable", "serialising an unserialisable value panicked: {}", p),
+    }
+}
+
 fn build(s: &RespSpec) -> Built {
     match s.kind {
         Kind::OkValue => Built::Resp(HttpResponseOk(s.value.clone()).to_result()),
@@ -339,6 +364,10 @@ fn check_inproc(s: &RespSpec, st: &mut Stats) -> Result<(), Failure> {
         st.nontrivial(hash_of(&format!("{:?}", s)));
     }
     let kn = kind_name(&s.kind);
+    if hash_of(&format!("{:?}", s.declared)) % 4 == 0 {
+        st.count("after_an_unserialisable_response");
+        unserialisable_response_first(s)?;
+    }
     let built = match catch_quiet(|| build(s)) {
         Ok(b) => b,
         Err(p) => fail!(format!("panic:{}", kn), "{}: building the response panicked: {}", kn, p),
